@@ -45,7 +45,7 @@ func init() {
 			}
 			return fmt.Sprintf("numbers: 2 signs x %d integer parts (<=21 digits) x %d fractions (<=23 digits, 0-21 leading zeros) x %d exponent forms = %d literals, each in %d placement/terminator contexts; "+
 				"strings: all sequences of <=%d items over %d items in %d placements, plus all 65536 \\uXXXX escapes (lower%s hex) and 9 boundary surrogate pairs; "+
-				"structure: every gens tree with <=%d nodes (compact and spaced) and duplicate-key objects with 2-4 members over %d keys; %d front-end executions per text",
+				"structure: every gens tree with <=%d nodes (compact and spaced) and duplicate-key objects with 2-4 members over %d keys; scale family: 231 documents with 7..129 elements / members / nesting levels and strings and member names of 7..4097 bytes (both sides of every power of two); %d front-end executions per text",
 				ni, nf, ne, 2*ni*nf*ne, len(numCtxs), sl, len(items), len(strPlaces), map[bool]string{true: " and sampled upper", false: " and upper"}[q], tn, map[bool]int{true: 2, false: 3}[q], len(frontEnds))
 		},
 	})
@@ -234,6 +234,7 @@ func run(c *core.Ctx) {
 	runLookalikes(j, next)
 	runStructure(j, next)
 	runDupKeys(j, next)
+	runScale(j, next)
 	c.Add("reference_cross_checks", j.xchk)
 	c.Add("rejections_tolerated_invalid_utf8", j.tol)
 }
@@ -666,6 +667,33 @@ func runDupKeys(j *judge, next func() bool) {
 }
 
 // ---------------------------------------------------------------- replay
+
+// runScale: the scale family (gens.ScaleDocs): documents whose element count,
+// member count, nesting depth or string length crosses the capacities the
+// front-ends start with (stacks of 16 / 32, maps of 8, token buffers of 32,
+// read buffers of 4096). The text is rendered by the harness, not by an ojg
+// writer; the shape goes into the signature.
+func runScale(j *judge, next func() bool) {
+	c := j.c
+	var n int64
+	for _, d := range gens.ScaleDocs(false) {
+		if c.Expired("C02 scale") {
+			break
+		}
+		if !next() {
+			continue
+		}
+		text := gens.ScaleJSON(d.Tree)
+		shape := d.Name[:strings.IndexByte(d.Name, ':')]
+		j.runText(text, &meta{family: "scale-" + shape}, nil)
+		n++
+		c.Nontrivial()
+		if n == 1 {
+			c.Sample(map[string]string{"family": "scale", "document": d.Name})
+		}
+	}
+	c.Add("scale_texts", n)
+}
 
 func replay(c *core.Ctx, raw json.RawMessage) {
 	var cs caseT
